@@ -7,32 +7,40 @@
             cfgs   ((threads inmemory channel_size source delay_seed) ...): the configurations the harness runs
                    the real writer under; read by the harness only (the model has no such inputs: that the
                    bytes do not depend on them is the property).  cfg 0 is the reference run.
-   output = (0 file-bytes-or-() (d ...))   written; file bytes only for an uncompressed bigWig
+   output = (0 file-bytes-or-() (d ...))   written; file bytes for an uncompressed file (bigWig and bigBed)
             (1 code (d ...))               refused by the reference run
             (2) panic, (3) hang
             d = () when that configuration's result equals the reference run's, else (index first-difference length)
-   The model prints the sequential writer model's bytes and () for every configuration.
+   The model prints the sequential writer model's bytes and () for every configuration: bigWig
+   Model/BigWigWrite.v through EntryBBI.write_model, bigBed Model/BigBedWrite.v (bb_write /
+   bb_write_multipass, summary and zoom levels from Model/BedSweep.v) through EntryBed.bed_write_model
+   with no autoSql (the harness leaves BigBedWrite::autosql = None: the library's BED3 text).
 
    entry 2: (case cap win ((t k i) ...)): runs the executable pipeline machine on the case's real section
             data under the given schedule (then a fair continuation) and compares with the sequential
             model's data region and index: (ok sections chromosomes). *)
 From BT Require Import Base.Util Base.Sexp Base.LE Base.Float Generated.Consts Model.RTree Model.BBIFile Model.BigWigWrite
   Model.BBIRead Model.EntryBBI Model.Pipeline.
+From BT Require Model.BigBedWrite Model.EntryBed.
 Local Open Scope N_scope.
 
 Definition cfgs_of (c : sexp) : list sexp := getL (nthS 4 c).
 Definition all_same (c : sexp) : sexp := L (map (fun _ => L []) (cfgs_of c)).
 
+(* the bigBed case in the vocabulary of Model/EntryBed.v: (kind opts sizes input queries autosql flags),
+   kind 0 single pass | 1 two passes, no query, no autoSql, flags 0 = the complete file *)
+Definition bed_case (c : sexp) : sexp :=
+  L [sN (getN (nthS 0 c) - 2); nthS 1 c; nthS 2 c; nthS 3 c; L []; L []; A 0%Z].
+Definition c11_write_model (c : sexp) : res (list N) :=
+  if 2 <=? getN (nthS 0 c) then EntryBed.bed_write_model (bed_case c) else write_model c.
+
 Definition c11_model (c : sexp) : sexp :=
-  let kind := getN (nthS 0 c) in
-  if 2 <=? kind then L [A 0%Z; L []; all_same c]
-  else
-    match write_model c with
-    | Ok bs => L [A 0%Z; (if o_compress (get_opts (nthS 1 c)) then L [] else sBytes bs); all_same c]
-    | Err code => L [A 1%Z; sN code; all_same c]
-    | Panic => L [A 2%Z]
-    | Fuel => L [A 3%Z]
-    end.
+  match c11_write_model c with
+  | Ok bs => L [A 0%Z; (if o_compress (get_opts (nthS 1 c)) then L [] else sBytes bs); all_same c]
+  | Err code => L [A 1%Z; sN code; all_same c]
+  | Panic => L [A 2%Z]
+  | Fuel => L [A 3%Z]
+  end.
 
 (* the property on what the implementation returned: the reference run finished (written or refused) and
    every configuration produced the reference run's result *)
